@@ -77,12 +77,21 @@ def instances(tier):
     from nucs.examples.golomb.golomb_problem import GolombProblem, golomb_consistency_algorithm
 
     galg = CA.register_consistency_algorithm(golomb_consistency_algorithm)
-    for k in range(3, (6 if q else 8) + 1):
+    for k in range(3, (7 if q else 8) + 1):
         for sym in (True, False):
             add(name="golomb-%d-%s" % (k, "sym" if sym else "nosym"), family="golomb", kind="min",
                 make=lambda k=k, sym=sym: GolombProblem(k, sym), objective=lambda p: p.length_idx,
                 validator=S.v_golomb(k), optimum=S.GOLOMB[k],
-                cfgs=[dict(consistency_alg_idx=galg), dict()] + ([dict(consistency_alg_idx=SH)] if k <= 5 else []))
+                cfgs=[dict(consistency_alg_idx=galg), dict()] + ([dict(consistency_alg_idx=SH)] if k <= 5 else []) + (
+                    # the model's own consistency algorithm under the generic heuristics
+                    [dict(consistency_alg_idx=galg, dom_heuristic_idx=H.DOM_HEURISTIC_MAX_VALUE),
+                     dict(consistency_alg_idx=galg, var_heuristic_idx=H.VAR_HEURISTIC_SMALLEST_DOMAIN,
+                          dom_heuristic_idx=H.DOM_HEURISTIC_MAX_VALUE),
+                     dict(consistency_alg_idx=galg, var_heuristic_idx=H.VAR_HEURISTIC_GREATEST_DOMAIN),
+                     dict(consistency_alg_idx=galg, dom_heuristic_idx=H.DOM_HEURISTIC_MID_VALUE),
+                     dict(consistency_alg_idx=galg, var_heuristic_idx=H.VAR_HEURISTIC_GREATEST_DOMAIN,
+                          dom_heuristic_idx=H.DOM_HEURISTIC_SPLIT_LOW)] if (k <= 7 and sym) or k <= 6 else
+                    [dict(consistency_alg_idx=galg, dom_heuristic_idx=H.DOM_HEURISTIC_MAX_VALUE)]))
     from nucs.examples.bibd.bibd_problem import BIBDProblem
 
     for prm, cnt in ([((6, 10, 5, 3, 2), 1), ((7, 7, 3, 3, 1), 1)] + ([] if q else [((8, 14, 7, 4, 3), 92)])):
@@ -206,6 +215,7 @@ def run_shipped(task):
         if time.time() > deadline:
             res["truncated"] = True
             break
+        progress.flush(res)
         fam = inst["family"]
         res["families"][fam] = res["families"].get(fam, 0) + 1
         sym_sets = []
@@ -331,3 +341,48 @@ def replay_shipped(task):
     finally:
         me.instances = saved
     return {"fails": r["fails"]}
+
+
+def replay_stalled(task):
+    """Watchdog protocol for a shipped instance a compiled child stalled on: the same instance and configuration on
+    plane A under the pass-level invariants of C08 (a consistency algorithm may only shrink domains) and a pass budget;
+    a domain that grows across a pass explains a search that never ends."""
+    import framework.props.shippedrun as me
+    from framework.planes import interp
+    from framework import monitors2 as MON2
+    from framework.planes.linebudget import BudgetExceeded
+    from nucs.solvers.backtrack_solver import BacktrackSolver
+
+    name, ci = task["instance"], task["config_index"]
+    inst = [x for x in me.instances("thorough") if x["name"] == name][0]
+    kw = inst["cfgs"][ci]
+    hub = interp.install()
+    hub.off_all()
+    interp.patch_late_modules()
+    interp.rewrap_registries()
+    fx = MON2.Fixpoint(hub, {"doms": [], "idx": [], "off": [], "props": []}, {"ofix": False})
+    passes = [0]
+
+    def count(idx, args, inner):
+        passes[0] += 1
+        if passes[0] > task.get("max_passes", 30000):
+            raise BudgetExceeded("propagation passes in the replay of a stalled shipped instance", passes[0],
+                                 task.get("max_passes", 30000))
+
+    hub.on("alg_enter", count)
+    problem = inst["make"]()
+    s = BacktrackSolver(problem, log_level="ERROR", **kw)
+    outcome = "completed"
+    try:
+        if inst["kind"] == "enum":
+            for _ in s.solve():
+                pass
+        else:
+            obj = inst["objective"](problem)
+            s.minimize(obj) if inst["kind"] == "min" else s.maximize(obj)
+    except BudgetExceeded as e:
+        outcome = "budget: " + str(e)
+    except Exception as e:
+        outcome = "raised %s: %s" % (type(e).__name__, str(e)[:100])
+    hub.off_all()
+    return {"fails": fx.fails[:5], "outcome": outcome, "passes": passes[0], "counts": fx.counts}
